@@ -5,7 +5,10 @@ B1  TLC checks RoutingModel's group routing (all pairwise disjoint combinations,
     requests (include lists of <= 1 ROADM, both labels) on all 125 3-site meshes (links: none, 0 km amplifier-only patch, 50, 140, 300 km), and for seeded pairs,
     triples and overlapping pairs on 4-site meshes (quick: sample, thorough: all 15 625).
 B2  generated (mesh, batch) cases - pairs (some with a free rider, some with the group stated twice), one triple,
-    two overlapping pairs, include lists over ROADMs and fibres - go through the real pipeline; the routes or the
+    two overlapping pairs, overlapping vectors of which one is written `relaxable: true` (preferably one that cannot
+    be met: nothing is claimed for it, everything for the others), include lists over ROADMs and fibres, lists opened /
+    closed by the request's own transceivers, request objects routed a second time - go through the real pipeline; the
+    routes or the
     DisjunctionError are judged by TLC (Trace_Routing): link identity is the generator's (a fibre pair = one link),
     not gnpy's isdisjoint; completeness ("error only when no disjoint combination honours the constraints") is
     claimed for a single pair only.
@@ -52,7 +55,7 @@ def b1_runs(ids4, p, w, first_all=True):
 def run(chk):
     if chk.replay:
         return ru.replay(chk, PID)
-    chk.cov['rule'] = ("cases are (mesh, batch) pairs drawn by MC_Routing's seeded generator (pairs, pairs stated twice, pairs with a free rider, one triple, two overlapping pairs; include lists over ROADMs and fibres) plus seeded groups on mesh V2; distinct = distinct (network, requests, groups); every case has a synchronisation group and is counted non-trivial")
+    chk.cov['rule'] = ("cases are (mesh, batch) pairs drawn by MC_Routing's seeded generator (pairs, pairs stated twice, pairs with a free rider, one triple, two overlapping pairs, overlapping vectors of which one is relaxable; include lists over ROADMs and fibres) plus seeded groups on mesh V2; distinct = distinct (network, requests, groups); every case has a synchronisation group and is counted non-trivial")
     p = TIERS[chk.tier]
     rng = random.Random(chk.seed + 12)
     salt = (chk.seed + 12) % 10007
@@ -95,9 +98,11 @@ def run(chk):
     # non-vacuity: solutions and errors, every group shape
     if not stats['noweak'] or not stats['strong']:       # the oracle must demand errors as well as solutions
         raise Machinery(f'vacuous replay: {stats}')
-    for k in ('pair', 'pair+free', 'pair(stated twice)', 'triple', 'overlapping-pairs'):
+    for k in ('pair', 'pair+free', 'pair(stated twice)', 'triple', 'overlapping-pairs', 'overlapping-pairs+relaxable'):
         if not stats['kinds'].get(k):
             raise Machinery(f'vacuous replay: no batch of kind {k}')
+    if not stats.get('relaxable_unmet'):
+        raise Machinery('vacuous replay: no batch whose relaxable vector cannot be met')
     want = [0, 1]
     for t in traces:
         for b, ev in zip(metas[t['name']], t['ev']):
@@ -122,6 +127,9 @@ def run(chk):
     chk.assume('route constraints of a grouped request: a DisjunctionError is mandatory when not even the STRICT hops '
                'can be honoured disjointly, forbidden (single pair) when a disjoint combination exists in which every '
                'request with a STRICT hop crosses its whole list; in between (mixed lists) unjudged')
+    chk.assume('a synchronisation vector written relaxable: nothing is demanded for it (neither disjoint routes nor an error '
+               'when it cannot be met); the vectors that are not relaxable are judged in full, also when they share '
+               'requests with a relaxable one')
     chk.assume('trusted: TLC, Json/IOUtils community modules, the projection in harness/routing_util.py')
 
 
@@ -131,7 +139,7 @@ def b3(chk, p, rng):
     ev = ru.planning_trace(bench, 'meshTopologyExampleV2_services.json', 'meshV2')
     t = dict(name='meshV2:shipped-services:planning()', n=bench.nsites, links=bench.arcs, opt=1, tol=0, ev=[ev])
     traces.append(t)
-    metas[t['name']] = [dict(reqs=ev['reqs'], groups=ev['groups'], info={})]
+    metas[t['name']] = [dict(reqs=ev['reqs'], groups=ev['groups'], relax=ev['relax'], info={})]
     evs, meta = [], []
     for k, b in enumerate(ru.random_batches(bench, rng, 2 * p['b3'], groups=True, max_inc=1)):
         if not b['groups']:
